@@ -161,6 +161,9 @@ def unreadByte (r : ByteRd) : ByteRd :=
   | some b => { r with last := none, rest := b :: r.rest }
   | none => r
 
+/-- gostuff `snm.At(s, idxs)`: the elements of `s` at the given indices (panics when one is out of range). -/
+def atIdx {α : Type} (s : List α) (idxs : List Int) : Option (List α) := idxs.mapM (idx s)
+
 /-- `strings.TrimSuffix`. -/
 def trimSuffix (s suffix : Bytes) : Bytes :=
   if suffix.isSuffixOf s then s.take (s.length - suffix.length) else s
